@@ -4,7 +4,7 @@ from __future__ import annotations
 from ..gprog import prio_menu, res_menu, seq_menu, shapes
 from ..monitors import mon_c02
 from ..sched import replay_case, run_case
-from ..spaces import desc_prio, flag_falsy_variants, kinds_all, kinds_rotating, shard_iter
+from ..spaces import cflag_variants, desc_prio, flag_falsy_variants, kinds_all, kinds_rotating, shard_iter
 
 ID = "C02"
 BUDGET = {"quick": 100, "thorough": 1800}
@@ -40,6 +40,17 @@ def cases(tier: str):
                                 for is_async in ((False,) if q else (False, True)):
                                     yield dict(n=n, es=es4, falsy=falsy, res=res, seq=seq, prio=prio, mc=mc, is_async=is_async,
                                                ties=1 if q else None)
+    # constant activation flags: a deactivated node next to pending predecessors of its children
+    for n in (2, 3, 4):
+        for es in shapes(n):
+            if n == 4 and len(es) > (3 if q else 6):
+                continue
+            for cf in cflag_variants(n)[1:n + 1]:
+                for res in res_menu(n)[:4]:
+                    for mc in (1, 2, 3):
+                        for is_async in ((False,) if (q and n == 4) else (False, True)):
+                            yield dict(n=n, es=[(i, j, "pos", ()) for (i, j) in es], cflag=cf, falsy=[], res=res, seq=(False,) * n, prio=(0,) * n,
+                                       mc=mc, is_async=is_async, ties=1 if q else None)
     if not q:
         n = 5
         for es in shapes(n):
